@@ -337,6 +337,15 @@ fn builders_and_proplists(rep: &Report) {
 }
 
 pub fn run(rep: &Report) -> serde_json::Value {
+    // panics of the code under test are caught and judged; keep them off stderr
+    let prev = std::panic::take_hook();
+    std::panic::set_hook(Box::new(|_| {}));
+    let out = run_inner(rep);
+    std::panic::set_hook(prev);
+    out
+}
+
+fn run_inner(rep: &Report) -> serde_json::Value {
     ranges(rep);
     dates(rep);
     times(rep);
